@@ -99,6 +99,10 @@ def labelled_events(prog):
             if "ast::Stmt" in t and ("[" in t or t.startswith("&")):
                 msinks[k] = ("eval", l - 1)
                 break
+            # .. or call arguments / expressions (`tracker_visit_callargs(&[CallArg], state)`)
+            if ("ast::CallArg" in t or "ast::Expr" in t) and ("[" in t or t.startswith("&")) and "AssignmentTracker" not in t:
+                msinks[k] = ("eval", l - 1)
+                break
     return (list(events.collect(prog, lab, cg, csinks)), list(events.collect(prog, lab, mt, msinks)), csinks, msinks)
 
 
